@@ -102,6 +102,8 @@ func init() {
 		cfg("gasCoin", 0, "coin", 1, "zeroable", 0, "zeroableOn", 1),
 		cfg("gasCoin", 1, "coin", 1),
 		cfg("gasCoin", 1, "coin", 0, "toSelf", 1),
+		// price table denominated in the token (converted through pool (2,0))
+		cfg("gasCoin", 0, "coin", 0, "priceCoin", 2, "pool20", 1, "concretePool", 1, "concretePrices", 1),
 	}
 	sendPool := []map[string]int64{
 		cfg("gasCoin", 1, "coin", 0, "pool10", 1),
@@ -300,6 +302,43 @@ func init() {
 		HSpec{Pkg: swapPkg, Func: "VerifHarness_C13_SellWithOrders", Tier: "quick", Configs: []map[string]int64{cfg("orders", 0), cfg("orders", 1)}, Bounds: "concrete pool 10000/10000 BIP and concrete resting orders; taker amount symbolic in (0, 100000 BIP]"},
 		HSpec{Pkg: swapPkg, Func: "VerifHarness_C13_SellWithOrders", Tier: "thorough", Configs: []map[string]int64{cfg("orders", 2)}, Bounds: "as above with two order levels"})
 
+	// ---------------------------------------------------------- C15 slippage limits and result tags
+	{
+		cp := func(kv ...interface{}) map[string]int64 { return cfg(append([]interface{}{"concretePrices", 1}, kv...)...) }
+		pp := func(kv ...interface{}) map[string]int64 {
+			return cfg(append([]interface{}{"concretePrices", 1, "pool20", 1, "concretePool", 1}, kv...)...)
+		}
+		c15a := append([]string{
+			"two-coin routes only (bancor coin <-> base; token <-> base through one pool, in both directions), gas coin = base coin or the traded custom coin (so that the commission conversion moves the very reserve / pool the trade uses); routes of 3..5 coins are outside the bound",
+			"pool trades: concrete pool reserves; BuySwapPool with the amount to buy taken from a few concrete values (the buy formula divides by a symbolic reserve difference otherwise: unknown in all back ends after 12 minutes), maximum to sell / minimum to buy, balances symbolic",
+			"result tags are compared as decimal strings of symbolic integers (tx.return, tx.sell_amount, tx.commission_amount)",
+		}, txAssumptions...)
+		bancorQ := HSpec{Pkg: txPkg, Func: "VerifHarness_Bancor_Deliver", Tier: "quick", Configs: []map[string]int64{
+			cp("kind", 0, "gasCoin", 0), cp("kind", 0, "gasCoin", 1), cp("kind", 1, "gasCoin", 0), cp("kind", 1, "gasCoin", 1, "reverse", 1), cp("kind", 2, "gasCoin", 0), cp("kind", 2, "gasCoin", 1, "reverse", 1)},
+			Bounds: "one CheckTx+DeliverTx of SellCoin / BuyCoin / SellAllCoin between the bancor coin and the base coin; amounts, limits, balances symbolic; formula as UF"}
+		bancorT := HSpec{Pkg: txPkg, Func: "VerifHarness_Bancor_Deliver", Tier: "thorough", Configs: []map[string]int64{
+			cp("kind", 0, "gasCoin", 0, "reverse", 1), cp("kind", 0, "gasCoin", 1, "reverse", 1), cp("kind", 1, "gasCoin", 1), cp("kind", 1, "gasCoin", 0, "reverse", 1), cp("kind", 2, "gasCoin", 1), cp("kind", 2, "gasCoin", 0, "reverse", 1),
+			cfg("kind", 0, "gasCoin", 0), cfg("kind", 1, "gasCoin", 0)},
+			Bounds: "remaining direction / gas-coin combinations; symbolic price table"}
+		buyQ := HSpec{Pkg: txPkg, Func: "VerifHarness_BuyPool_Deliver", Tier: "quick", Configs: []map[string]int64{
+			pp("gasCoin", 0, "buyValue", 10), pp("gasCoin", 2, "buyValue", 250), pp("gasCoin", 2, "reverse", 1, "buyValue", 3), pp("gasCoin", 0, "reverse", 1, "buyValue", 77)},
+			Bounds: "one CheckTx+DeliverTx of BuySwapPool over pool (token, base); amount to buy concrete, maximum to sell symbolic"}
+		sellQ := HSpec{Pkg: txPkg, Func: "VerifHarness_SellPool_Deliver", Tier: "quick", Configs: []map[string]int64{pp("gasCoin", 0), pp("gasCoin", 2)},
+			Bounds: "one CheckTx+DeliverTx of SellSwapPool token->base; amount to sell and minimum symbolic"}
+		sellT := HSpec{Pkg: txPkg, Func: "VerifHarness_SellPool_Deliver", Tier: "thorough", Configs: []map[string]int64{pp("gasCoin", 0, "reverse", 1), pp("gasCoin", 2, "reverse", 1)},
+			Bounds: "base->token"}
+		add("C15", c15a, bancorQ, bancorT, buyQ, sellQ, sellT)
+		for _, id := range []string{"C01", "C02", "C03", "C05", "C06", "C07"} {
+			add(id, c15a, buyQ)
+			b := bancorQ
+			b.Configs = b.Configs[:4]
+			add(id, c15a, b)
+			st := sellQ
+			st.Tier = "thorough"
+			add(id, c15a, st, bancorT)
+		}
+	}
+
 	// ---------------------------------------------------------- C14 limit orders
 	{
 		c14a := append([]string{
@@ -378,7 +417,10 @@ func init() {
 			HSpec{Pkg: txPkg, Func: "VerifHarness_C23_RecoverGates", Tier: "quick", Opts: realTx, Bounds: "R, S unbounded non-negative, V < 2^500"},
 			HSpec{Pkg: txPkg, Func: "VerifHarness_C23_HashCoversFields", Tier: "quick", Bounds: "one changed field at a time, numeric deltas 1..200 symbolic"},
 			HSpec{Pkg: "coreV2/check", Func: "VerifHarness_C23_CheckRecoverGates", Tier: "quick", Opts: gosym.HarnessOpts{RealBodies: []string{modulePath + "/coreV2/check.recoverPlain"}}, Bounds: "R, S unbounded non-negative, V < 2^500"},
-			HSpec{Pkg: "coreV2/check", Func: "VerifHarness_C23_CheckHashCoversFields", Tier: "quick", Bounds: "one changed field at a time"})
+			HSpec{Pkg: "coreV2/check", Func: "VerifHarness_C23_CheckHashCoversFields", Tier: "quick", Bounds: "one changed field at a time"},
+			HSpec{Pkg: txPkg, Func: "VerifHarness_C23_TrailingBytesRejected", Tier: "quick", Configs: []map[string]int64{cfg("concretePrices", 1)},
+				Bounds: "box level: a signed Send with one byte appended to SignatureData or to the whole encoding, delivered to RunTx from an arbitrary ledger (DecodeBytes rejects trailing input, Decode from a reader does not: the model keeps that difference)"},
+			HSpec{Pkg: "coreV2/check", Func: "VerifHarness_C23_CheckTrailingBytesRejected", Tier: "quick", Bounds: "box level: a check with one byte appended"})
 		add("C07", c23a[:2],
 			HSpec{Pkg: "rlp", Func: "VerifHarness_C07_StreamList", Tier: "quick", Configs: ns(1, 2, 4, 6), Bounds: "every buffer of n bytes (<= 6): list header, two strings, list end; no panic"},
 			HSpec{Pkg: "rlp", Func: "VerifHarness_C07_StreamList", Tier: "thorough", Configs: ns(9), Bounds: "every buffer of 9 bytes"},
